@@ -15,7 +15,8 @@ CONSTANTS
   MaxOpens = 1
   MaxResp = 3
   MaxSC = 1
+  Label = FALSE
 INIT Init
 NEXT Next
 VIEW View
-PROPERTY MethodBodyOK
+INVARIANT MethodBodyOK
